@@ -30,12 +30,13 @@ RULE += (' Also: a source whose aclose appears only once iteration has begun; te
 RULE += (' Also: tee sources failing once at their k-th use (the fetching child ends; the last child to go closes the source).')
 RULE += (' Also: iterators drawn from async iterables are owned by the tool that drew them.')
 RULE += (' Also: end-of-iteration exceptions raised by user callables or thrown in by the consumer.')
+RULE += (' Also: a class-based source that reports its remaining length (sized shortcuts still own and close it).')
 ASSUMPTIONS = ["sources' own aclose never suspends or fails", "sync iterables have nothing to release",
                "a generator-based tool closed before its first step runs no code (language semantics): sources need "
                "not be closed then, except for handles that advertise eager closing (chain, tee, groupby)"]
 EXHAUSTIVE = {"quick": False, "thorough": False}
 N_SPECS = {"quick": 12000, "thorough": 600000}
-SRC_FL = ["async_gen", "async_class", "async_class", "async_class_bare", "list", "async_class_proxy", "async_class_future", "async_iterable", "async_class_lateclose"]
+SRC_FL = ["async_gen", "async_class", "async_class", "async_class_bare", "list", "async_class_proxy", "async_class_future", "async_iterable", "async_class_lateclose", "async_class_sized"]
 EAGER = {"chain"}  # handles closing what they own even if never advanced (tee/groupby handled separately)
 
 
@@ -90,7 +91,7 @@ def cases(tier, seed, shard, nshards):
                    "cancel": rng.random() < 0.35}
         elif name in gen.AGG_NAMES:
             spec = gen.agg_spec(rng, name, maxlen)
-            yield {"kind": "agg", "spec": spec, "flav": rng.choice(["async_gen", "async_class", "async_class_proxy"]),
+            yield {"kind": "agg", "spec": spec, "flav": rng.choice(["async_gen", "async_class", "async_class_proxy", "async_class_sized"]),
                    "fnfl": rng.choice(["def", "async_def"]), "exc": rng.choice(list(FAULT_TYPES))}
         else:
             spec = gen.iter_spec(rng, name, maxlen)
@@ -133,7 +134,7 @@ def _leaks(side, spec, flavs, outer_flav):
     n_closable = 0
     for st, f in pairs:
         # (the iterator a tool draws from an async ITERABLE is the tool's own as well)
-        if f not in ("async_gen", "async_class", "async_class_full", "async_class_proxy", "async_class_future", "async_iterable"):
+        if f not in ("async_gen", "async_class", "async_class_full", "async_class_proxy", "async_class_future", "async_iterable", "async_class_sized"):
             continue
         if f == "async_iterable" and not st.given:
             continue  # never asked for an iterator: there is nothing anybody could own
